@@ -37,10 +37,10 @@ THEOREMS = [
 ]
 RULE = ("exhaustive cube |a|,|b|,|c| <= K (K=6 quick, 12 thorough) for gcd/lcm/egcd, all (m1,m2) <= K with all reduced "
         "residues for crt, plus boundary-biased samples up to 2^20 (zeros, negatives, equal operands, multiples, "
-        "coprime neighbours, powers of two) over i32/i64/i128/isize/u32/u64/u128; non-trivial = neither operand zero and |a| != |b|")
+        "coprime neighbours, powers of two) over i32/i64/i128/isize/u32/u64/u128, plus gcd/lcm over the whole range (top bit set included) of u8/u16/u32/u64/u128/usize/i8/i16; non-trivial = neither operand zero and |a| != |b|")
 TRUSTED = ["executor harness/crates/c11 (calls rlib_gcd::{gcd,lcm,egcd,crt} and prints the result)",
            "checks/c11.py (case generator, Coq term printer)"]
-ASSUMPTIONS = ["integers modelled as unbounded Z: the property excludes overflowing magnitudes; sampled operands stay <= 2^20 (i32: 2^10 for egcd/crt)",
+ASSUMPTIONS = ["integers modelled as unbounded Z: the property excludes overflowing magnitudes; sampled operands stay <= 2^20 (i32: 2^10 for egcd/crt); gcd, and lcm when it fits, are also run on full-range operands of the narrow and unsigned types, where no intermediate can overflow",
                "Rust / and % on signed integers are Z.quot and Z.rem"]
 
 SIGNED = ["i64", "i32", "i128", "isize"]
@@ -119,6 +119,38 @@ def generate(rng, tier):
     # the division-by-zero corner (outside the property, modelled as Panic): both sides must panic
     cases.append({"ty": "i64", "op": "lcm", "args": [0, 0]})
     cases.append({"ty": "i64", "op": "egcd", "args": [0, 0, 5]})
+    # narrow and unsigned instantiations over their WHOLE range (gcd never overflows; lcm only when it fits):
+    # operands with the top bit set are where an unsigned type differs from a signed one of the same width
+    BITS = {"u8": 8, "u16": 16, "u32": 32, "u64": 64, "u128": 128, "usize": 64, "i8": 8, "i16": 16}
+    per = 40 if tier == "quick" else 1200
+    for ty, w in BITS.items():
+        unsigned = ty[0] == "u"
+        top = (1 << w) - 1 if unsigned else (1 << (w - 1)) - 1
+        def pick():
+            k = rng.below(6)
+            if k == 0:
+                return rng.choice([top, top - 1, (top + 1) // 2, (top + 1) // 2 + 1, (top + 1) // 2 - 1, top - top // 3])
+            if k == 1:
+                return rng.range(0, 40)
+            if k == 2:
+                return top - rng.range(0, 40)
+            return rng.range(0, top)
+        for _ in range(per):
+            a, b = pick(), pick()
+            if rng.chance(1, 3) and a != 0:
+                g = rng.choice([2, 3, 4, 5, 7, 25, 100])
+                a, b = (a // g) * g, (b // g) * g      # a common factor
+            if rng.chance(1, 5) and a != 0:
+                b = a // rng.range(1, 5)
+            if not unsigned:
+                if rng.chance(1, 2):
+                    a = -a
+                if rng.chance(1, 2):
+                    b = -b
+            cases.append({"ty": ty, "op": "gcd", "args": [a, b]})
+            g = gcdpy(a, b)
+            if g != 0 and abs(a) // g * abs(b) <= top:
+                cases.append({"ty": ty, "op": "lcm", "args": [a, b]})
     # sampled, boundary biased
     n = 1500 if tier == "quick" else 40000
     for _ in range(n):
